@@ -132,6 +132,7 @@ Record push_post (m : mem) (own : bufid -> N) (r : repr) (s : list N) (m' : mem)
             ok = true /\ nreq m' = nreq m /\ (forall b, names r' b = names r b) /\ is_heap r' = is_heap r;
   pp_grow : ok = true -> nreq m' = nreq m \/
             (is_heap r' = true /\ cap_of m' r' = amortized_growth (repr_len r) (len s) /\ nreq m' = nreq m + 1);
+  pp_excl : ok = true -> s <> [] -> exclusive (heap m') r';
 }.
 
 Lemma push_str_wp m own r s (Q : out (repr * bool) -> mem -> Prop) :
@@ -147,6 +148,7 @@ Proof.
     + auto.
     + intros _ _. auto.
     + intros _. left. reflexivity.
+    + intros _ Hx. congruence.
   - set (s := c0 :: s0) in *.
     apply wp_bind. apply (reserve_wp m own r (len s)); auto. intros m1 r1 ok [P1 P2 P3 P4 P5 P6 P7]. unfold lift.
     destruct ok; cbn [negb].
@@ -155,6 +157,7 @@ Proof.
         - discriminate.
         - auto.
         - intros H1 H2. destruct (P6 H1 H2) as (Hbad & _). discriminate.
+        - discriminate.
         - discriminate. }
     destruct (P4 eq_refl) as (Hex1 & Hcap1).
     pose proof (so_mi _ _ _ _ _ P1) as HM1. pose proof (so_h _ _ _ _ _ P1) as Hr1.
@@ -187,6 +190,7 @@ Proof.
       * discriminate.
       * intros H1 H2. destruct (P6 H1 H2) as (_ & E & Hh1 & Hn1). rewrite <- E. repeat split; auto.
       * intros _. destruct (P7 eq_refl) as [(_ & _ & Hn)|[(Hh & _)|(_ & _ & _ & _ & Hn)]]; auto. discriminate.
+      * intros _ _. exact S3.
     + (* exclusive heap *)
       destruct Hex1 as (x & Hb & Hl & Hcx). cbn [cap_of] in Hcap1. rewrite Hb in Hcap1.
       cbn [text_of] in P2. rewrite Hb in P2. cbn [repr_len] in P3. subst l1.
@@ -212,6 +216,7 @@ Proof.
         -- left. lia.
         -- right. repeat split; auto; [|lia]. rewrite S4. cbn [cap_of] in Hc2. rewrite Hb in Hc2. exact Hc2.
         -- discriminate.
+      * intros _ _. exact S3.
 Qed.
 
 (* ---------- as_bytes ---------- *)
@@ -570,6 +575,7 @@ Record pop_post (m : mem) (own : bufid -> N) (r : repr) (m' : mem) (r' : repr) (
   po_none : text_of m r = [] -> res = None /\ r' = r;
   po_some : text_of m r <> [] ->
             res = Some (decode_cp (last_char (text_of m r))) /\ text_of m' r' = pop_text (text_of m r);
+  po_handle : r' = r \/ exists n, n <= repr_len r /\ r' = with_len r n;
 }.
 
 Lemma names_same_counted own r r' : (forall b, names r' b = names r b) -> counted own r -> counted own r'.
@@ -603,6 +609,7 @@ Proof.
     + auto.
     + auto.
     + intros Hx. congruence.
+    + left. reflexivity.
   - rewrite <- ET in *. assert (Hne : T <> []) by (rewrite ET; discriminate).
     destruct (valid_last_char T HvT Hne) as (pre & Epre & Hcok & Hvpre).
     set (ch := last_char T) in *. rewrite (encode_decode ch Hcok).
@@ -622,6 +629,7 @@ Proof.
     + intros Hx. congruence.
     + intros _. rewrite S2. rewrite <- ET0. split; [reflexivity|]. rewrite Hfn. unfold pop_text. fold ch.
       replace (length T - length ch)%nat with (length pre) by lia. rewrite Epre. symmetry. apply firstn_app_exact.
+    + right. exists (repr_len r - len ch). split; [exact Hn|reflexivity].
 Qed.
 
 Record truncate_post (m : mem) (own : bufid -> N) (r : repr) (n : N) (m' : mem) (r' : repr) (res : res unit) : Prop := {
@@ -631,6 +639,7 @@ Record truncate_post (m : mem) (own : bufid -> N) (r : repr) (n : N) (m' : mem) 
   tr_panic : n < repr_len r -> is_char_boundary (text_of m r) n = false -> res = RPanic PIndex /\ r' = r;
   tr_ok : n < repr_len r -> is_char_boundary (text_of m r) n = true ->
           res = ROk tt /\ text_of m' r' = firstn (N.to_nat n) (text_of m r);
+  tr_handle : r' = r \/ (n <= repr_len r /\ r' = with_len r n);
 }.
 
 Lemma truncate_wp m own r n (Q : out (repr * res unit) -> mem -> Prop) :
@@ -646,6 +655,7 @@ Proof.
     + auto.
     + intros Hx. lia.
     + intros Hx. lia.
+    + left. reflexivity.
   - apply wp_bind. eapply as_bytes_wp; eauto. intros m0 He0 Hh0 Hn0. unfold lift.
     set (T := text_of m r) in *.
     pose proof (text_valid m r Hr) as HvT. fold T in HvT.
@@ -662,10 +672,12 @@ Proof.
       * intros Hx. lia.
       * intros _ Hx. change (is_char_boundary T n = false) in Hx. congruence.
       * intros _ _. auto.
+      * right. split; [exact Hn|reflexivity].
     + apply wp_ret. apply HQ. split.
       * apply step_ok_refl; auto.
       * auto.
       * intros Hx. lia.
       * intros _ _. auto.
       * intros _ Hx. change (is_char_boundary T n = true) in Hx. congruence.
+      * left. reflexivity.
 Qed.
